@@ -664,7 +664,7 @@ fn check(args: &[String]) {
                 // quick tier: three readers over three chunks run the operations that wait at a
                 // chunk boundary, one byte off, at the very end, a stream and an out-of-range one
                 let g = |o, n| vec![Op { kind: b'g', o, n }];
-                alpha = vec![g(0, 2), g(0, 3), g(0, 4), g(0, 6), vec![Op { kind: b'x', o: 5, n: 1 }], stream(total, 0), g(5, 2)];
+                alpha = vec![g(0, 2), g(0, 3), g(0, 4), g(0, 6), vec![Op { kind: b'x', o: 5, n: 1 }], g(5, 2)];
             }
             for ms in multisets(alpha.len(), readers) {
                 let rs: Vec<Vec<Op>> = ms.iter().map(|i| alpha[*i].clone()).collect();
@@ -672,10 +672,13 @@ fn check(args: &[String]) {
                 // and two readers; for three readers at the chunk boundaries and one byte off)
                 let avails: Vec<u8> = if readers <= 2 { (0..=total).collect() } else if thorough { (0..=total).collect() } else { vec![total, total - 1, CHUNK] };
                 for avail in avails {
+                    if readers == 3 && !thorough && chunks == 1 && (ms[0] + ms[1] + ms[2]) % 2 != 0 {
+                        continue;
+                    }
                     if readers == 3 && !thorough && chunks < 3 && avail != total && ms[0] % 3 != 0 {
                         continue;
                     }
-                    if readers == 3 && !thorough && chunks == 2 && (ms[0] + ms[1] + ms[2]) % 5 != 0 {
+                    if readers == 3 && !thorough && chunks == 2 && (ms[0] + ms[1] + ms[2]) % 9 != 0 {
                         continue;
                     }
                     cfgs.push(Cfg { total, avail, readers: rs.clone(), bug: 0 });
